@@ -232,6 +232,14 @@ def eval_generators(w, symvals):
                 sh[i] = math.exp(sh[exp_of[i]])
             elif k == 'fun':
                 name, arg = w.info[i]
+                if name == 'arctan2':
+                    try:
+                        yy = _eval_poly(w, arg[0].num) / _eval_poly(w, arg[0].den)
+                        xx = _eval_poly(w, arg[1].num) / _eval_poly(w, arg[1].den)
+                        sh[i] = math.atan2(yy, xx)
+                    except Exception:
+                        sh[i] = float('nan')
+                    continue
                 try:
                     a = _eval_poly(w, arg.num) / _eval_poly(w, arg.den)
                     sh[i] = {'arccosh': math.acosh, 'arccos': math.acos, 'arcsin': math.asin,
@@ -699,7 +707,7 @@ class Alg:
             if sum(m) != 1:
                 return None
             gi = m.index(1)
-            if w.kind[gi] != 'sym':
+            if w.kind[gi] not in ('sym', 'fun'):
                 return None
             q = c / d
             if q.denominator != 1:
@@ -713,6 +721,11 @@ class Alg:
         if self.is_zero_nf():
             return w.const(1), w.const(0)
         parts = self._angle_parts()
+        if parts is not None and len(parts) == 1 and parts[0][1] == 1 and w.kind[parts[0][0]] == 'fun' \
+                and w.info[parts[0][0]][0] == 'arctan2':
+            y, x = w.info[parts[0][0]][1]
+            r = (x * x + y * y).sqrt()
+            return x / r, y / r
         if parts is None:
             key = ('angle', _poly_key(self.num), _poly_key(self.den))
             if key not in w.fun_cache:
@@ -727,6 +740,15 @@ class Alg:
             return w.fun_cache[key]
         C, S = w.const(1), w.const(0)
         for gi, mlt in parts:
+            if w.kind[gi] == 'fun' and w.info[gi][0] == 'arctan2':
+                y, x = w.info[gi][1]
+                r = (x * x + y * y).sqrt()
+                c1, s1 = x / r, y / r
+                if mlt < 0:
+                    s1, mlt = -s1, -mlt
+                for _ in range(mlt):
+                    C, S = C * c1 - S * s1, S * c1 + C * s1
+                continue
             if gi not in w.angle_base:
                 th = w.shadow[gi]
                 ci = w._grow(f"cos_{w.names[gi]}", 'cos', math.cos(th))
@@ -762,6 +784,12 @@ class Alg:
             raise Undecided("exp of a non-linear argument")
         out = w.const(1)
         for gi, mlt in parts:
+            if w.kind[gi] == 'fun' and w.info[gi][0] == 'arccosh':
+                # assumed contract: exp(arccosh c) = c + sqrt(c^2 - 1)   (c >= 1 is arccosh's own domain obligation)
+                c = w.info[gi][1]
+                base = c + (c * c - 1).sqrt()
+                out = out * base ** mlt
+                continue
             if gi not in w.exp_base:
                 ei = w._grow(f"exp_{w.names[gi]}", 'exp', math.exp(w.shadow[gi]))
                 w.exp_base[gi] = ei
@@ -805,6 +833,27 @@ class Alg:
 
     def arctan(self):
         return self._fun('arctan', math.atan)
+
+    def arctan2(self, x):
+        """theta = arctan2(y=self, x): function symbol with  cos(theta) = x/sqrt(x^2+y^2), sin(theta) = y/sqrt(x^2+y^2)"""
+        w = self.w
+        y = self
+        x = y._coerce(x)
+        key = ('arctan2', _poly_key(y.num), _poly_key(y.den), _poly_key(x.num), _poly_key(x.den))
+        if key not in w.fun_cache:
+            r2 = x * x + y * y
+            if not r2.is_const():
+                w.require(r2, '>', "arctan2: argument is not the origin")
+            yv = y.val.real if isinstance(y.val, complex) else y.val
+            xv = x.val.real if isinstance(x.val, complex) else x.val
+            v = math.atan2(yv, xv)
+            gi = w._grow(f"atan2_{len(w.fun_cache)}", 'fun', v)
+            w.info[gi] = ('arctan2', (y, x))
+            w.fun_cache[key] = Alg(w, w.ring.gens[gi], w.ring.one, v)
+        return w.fun_cache[key]
+
+    def rarctan2(self, y):
+        return self._coerce(y).arctan2(self)
 
     def sinh(self):
         e = self.exp()
